@@ -35,6 +35,25 @@ type Assigner struct {
 	Name string
 	PK   string
 	Keys encryption.SignatureScheme
+	// second key of the same assigner name: the owner may re-register the name under it (key rotation) and back
+	PK2   string
+	Keys2 encryption.SignatureScheme
+}
+
+// keysFor returns the signing key whose public key is pk (the one currently registered), the first key otherwise.
+func (a *Assigner) keysFor(pk string) encryption.SignatureScheme {
+	if pk != "" && pk == a.PK2 {
+		return a.Keys2
+	}
+	return a.Keys
+}
+
+// otherThan returns the key pair that is not pk.
+func (a *Assigner) otherThan(pk string) (string, encryption.SignatureScheme) {
+	if pk == a.PK2 {
+		return a.PK, a.Keys
+	}
+	return a.PK2, a.Keys2
 }
 
 // SW is the storage workload state of one run: sim-owned identities and the
@@ -48,13 +67,20 @@ type SW struct {
 	Assigners  []*Assigner
 	Stranger   *ledger.Client
 
-	rootCtr   int
-	nonceCtr  map[string]int64    // next fresh marker nonce per assigner
-	redeemed  map[string][]string // assigner -> raw marker inputs that were redeemed (replay faults)
-	lastRead  []string            // raw inputs of accepted read markers (replay faults)
-	lastWM    []wmReplay          // accepted commit_connection inputs (replay faults)
-	probed    map[string]bool
-	closedIDs []string // allocation ids closed so far (for post-close faults)
+	rootCtr    int
+	nonceCtr   map[string]int64      // next fresh marker nonce per assigner
+	redeemed   map[string][]string   // assigner -> raw marker inputs that were redeemed (replay faults)
+	rotGen     map[string]int        // assigner -> number of accepted re-registrations under another key
+	redeemedAt map[string]redeemInfo // raw redeemed input -> key and rotation count at redemption
+	lastRead   []string              // raw inputs of accepted read markers (replay faults)
+	lastWM     []wmReplay            // accepted commit_connection inputs (replay faults)
+	probed     map[string]bool
+	closedIDs  []string // allocation ids closed so far (for post-close faults)
+}
+
+type redeemInfo struct {
+	key string
+	gen int
 }
 
 type wmReplay struct {
@@ -74,7 +100,7 @@ func newClient(scheme string, rng *sim.RNG, idx int) *ledger.Client {
 // NewSW derives the sim-owned identities of the storage workload from the
 // run's seed and registers the step handlers.
 func NewSW(w *ledger.World, r *ledger.Runner) *SW {
-	sw := &SW{W: w, R: r, nonceCtr: map[string]int64{}, redeemed: map[string][]string{}, probed: map[string]bool{}}
+	sw := &SW{W: w, R: r, nonceCtr: map[string]int64{}, redeemed: map[string][]string{}, rotGen: map[string]int{}, redeemedAt: map[string]redeemInfo{}, probed: map[string]bool{}}
 	sw.V = NewViewer(w)
 	keys := sim.NewRNG(w.Seed).Child("keys")
 	p := r.Plan
@@ -92,7 +118,8 @@ func NewSW(w *ledger.World, r *ledger.Runner) *SW {
 	}
 	for i := 0; i < na; i++ {
 		ks := wkit.NewKeys(w.Cfg.Scheme, keys.Child(fmt.Sprintf("st/assigner/%d", i)))
-		sw.Assigners = append(sw.Assigners, &Assigner{Name: fmt.Sprintf("assigner-%d", i), PK: ks.GetPublicKey(), Keys: ks})
+		ks2 := wkit.NewKeys(w.Cfg.Scheme, keys.Child(fmt.Sprintf("st/assigner/%d/rotated", i)))
+		sw.Assigners = append(sw.Assigners, &Assigner{Name: fmt.Sprintf("assigner-%d", i), PK: ks.GetPublicKey(), Keys: ks, PK2: ks2.GetPublicKey(), Keys2: ks2})
 	}
 	sw.Stranger = newClient(w.Cfg.Scheme, keys.Child("st/stranger"), 0)
 	sw.registerOps()
